@@ -436,7 +436,7 @@ static void vector_case(size_t es, int xt, int pattern)
         if (pattern == 2 && (t % 3) == 2) cstl_vector_shrink_to_fit(&v);
         cstl_vector_resize(&v, n); evals++;
         CHECK(cstl_vector_size(&v) == n && cstl_vector_capacity(&v) >= n, "resize(%zu): size %zu capacity %zu", n, cstl_vector_size(&v), cstl_vector_capacity(&v));
-        if (n) { shim_blk *b = shim_find(cstl_vector_data(&v)); CHECK(b && b->p == cstl_vector_data(&v) && b->sz >= (cstl_vector_capacity(&v) + 1) * es, "capacity %zu of %zu-byte elements is not backed by the live allocation (%zu bytes)", cstl_vector_capacity(&v), es, b ? b->sz : 0); }
+        if (n) { shim_blk *b = shim_find(cstl_vector_data(&v)); CHECK(b && (size_t)((char *)cstl_vector_data(&v) - (char *)b->p) + cstl_vector_capacity(&v) * es <= b->sz && b->sz >= (cstl_vector_capacity(&v) + 1) * es, "capacity %zu of %zu-byte elements is not backed by the live allocation (%zu bytes)", cstl_vector_capacity(&v), es, b ? b->sz : 0); }
         /* elements that stayed in range keep their bytes; new ones are stamped by the caller (or the constructor) */
         for (i = 0; i < (size < n ? size : n) && !nviol; i++) { unsigned char *e = cstl_vector_at(&v, i); CHECK(e[es - 1] == (unsigned char)(i * 7 + 1) || xt, "element %zu lost its bytes across resize %zu -> %zu", i, size, n); if (nviol) break; }
         for (i = size; i < n; i++) { unsigned char *e = cstl_vector_at(&v, i); if (!xt) memset(e, (int)(unsigned char)(i * 7 + 1), es); else CHECK(*(unsigned *)e == 0xC0DEu, "element %zu was not constructed", i); }
